@@ -101,6 +101,8 @@ macro_rules! pt {
 
 // a half-read tag carried over the chunk boundary, continuation bytes arbitrary (valid UTF-8 or not)
 pt!(c04_html_pt_halftag_any, b"<a", 2, 4, 5, 2, "append_child", false, 22);
+// one arbitrary byte after the carried half-read tag
+pt!(c04_html_pt_halftag_any_s1, b"<a", 1, 3, 4, 2, "append_child", false, 22);
 // the same with ASCII continuations only (no internal error possible)
 pt!(c04_html_pt_halftag_ascii, b"<a", 2, 4, 5, 2, "append_child", true, 22);
 // text containing '<' (the look-ahead loop), then a half-read tag at the cut
